@@ -90,7 +90,7 @@ theorem drainCore_valid {s : Bytes} (hv : Valid s) (a b take back : Nat) (forget
 theorem drain_valid (ovf : Bool) {s : Bytes} (hv : Valid s) (sb eb : Bd) (take back : Nat) (forget : Bool) :
     drain ovf s sb eb take back forget = .panic ∨
       ∃ r, drain ovf s sb eb take back forget = .ok r ∧ Valid r.bytes := by
-  unfold drain
+  unfold drain drainWith
   have hS : ∀ b o, rangeStart o b = .panic ∨ ∃ n, rangeStart o b = .ok n := by
     intro b o; cases b <;> simp [rangeStart, addOne] <;> (repeat' split) <;> simp
   have hE : ∀ b o len, rangeEnd o len b = .panic ∨ ∃ n, rangeEnd o len b = .ok n := by
@@ -145,7 +145,7 @@ theorem endAssert_boundary {o₁ o₂ : Bool} {s : Bytes} {eb : Bd} {b : Nat}
 theorem replaceRange_valid (ovf : Bool) {s : Bytes} (hv : Valid s) (sb eb : Bd) (t : List Char) :
     replaceRange ovf s sb eb (encode t) = .panic ∨
       ∃ s', replaceRange ovf s sb eb (encode t) = .ok s' ∧ Valid s' := by
-  unfold replaceRange
+  unfold replaceRange replaceRangeWith
   cases h1 : startAssert (replaceOvf ovf) s sb with
   | ok u =>
     cases h2 : endAssert (replaceOvf ovf) s eb with
